@@ -113,7 +113,22 @@ claim("C07",
       "effects on captured variables; concurrent register/unregister/fetch (non-atomic mailbox updates) is outside this family.",
       "DESIGN.md §6 C07")
 
-for pid in ["C05","C09","C10","C20"]:
+claim("C10",
+      "mergeFragmentPayload is proved never to panic for any slice of bundles (every slice/index expression in bounds, also for unsorted input, gaps, duplicates, overlaps and absurd offsets) and to return either an error or data; "
+      "prepareReassembly succeeds only for a non-empty slice consisting of fragments whose first (lowest-offset) fragment starts at offset 0. In the thorough tier: merged data is a prefix of the original payload for every family of fragments of one payload.",
+      "Partial: 'succeeds exactly when the fragments cover the payload' needs a running-maximum (recursive) specification and is not decided; sort.Slice is a permutation model (order by the less function not assumed); "
+      "two safety obligations of prepareReassembly (type assertion after the permutation) are undecided and not claimed; fragment-of-fragment offsets (Bundle.Fragment) and the store's completeness test are not under contract.",
+      "DESIGN.md §6 C10, §11.4")
+
+claim("C05",
+      "Per-step retention clauses: Core.receive deletes a new bundle only for an unsupported block that demands deletion, leaves known bundles untouched and hands every other new bundle to dispatching; "
+      "Core.localDelivery releases the retention constraints only after the agent manager took the bundle and otherwise marks it contraindicated (kept, retried); PurgeConstraints never removes the local-endpoint constraint and adds nothing; "
+      "filterCLAs/epidemic selection clauses shared with C13.",
+      "Partial: Core.forward (goroutine fan-out, contraindication on failure, deletion after success), BundleDescriptor.Sync, checkPendingBundles, direct delivery, expiry of clock-less bundles, restarts, crash points and racing failure reports are not decided; "
+      "AgentManager.Deliver, bundleDeletion, dispatching, bundleContraindicated are assumed summaries.",
+      "DESIGN.md §6 C05, §11.4")
+
+for pid in ["C09","C20"]:
     na(pid, UNBUILT)
 na("C08", "Durability across restarts/crash points and concurrent pushes are history properties of badgerhold/gob/the file system; "
           "the in-repo code is a thin reflection-driven wrapper; no function contract within reach can express or decide them (DESIGN.md §7).")
